@@ -143,7 +143,11 @@ Definition c19_verdict (k : c19_case) : N :=
           | None => true
           end &&
           match prevb r sz with Some x => range_eqb o_prev x | None => true end)) in
-      code m p
+      (* the range Next / Previous should produce does not exist in 64-bit heights (end + size >= 2^64, or size > start): the API has
+         no error result and wraps around silently: code 7 (known finding) when everything else is right *)
+      let wraps := range_okb r && (match nextb r sz with None => true | Some _ => false end ||
+                                   match prevb r sz with None => true | Some _ => false end) in
+      if ((code m p) =? 0) && wraps then 7 else code m p
   | KSplit r chunk o probes =>
       match o with
       | OSplitHang => 5
